@@ -8,7 +8,7 @@ from ..effects import Effects, interprocedural_taint
 from ..interp import CannotEvaluate, PathLimit
 from ..srcmodel import AnalysisError, Func, dotted
 from ..values import AStr, DIGITS
-from .c14 import IMPORT_ONLY, get_is_guarded, lazy_facts, shared_classes
+from .c14 import IMPORT_ONLY, get_is_guarded, lazy_facts, shared_classes, slow_path_skip
 
 CACHE_DECORATORS = ("lru_cache", "cache", "cached_property", "memoize", "singledispatch")
 VALUE_CLASSES = ("schwifty.iban.IBAN", "schwifty.bic.BIC", "schwifty.bban.BBAN")
@@ -32,8 +32,7 @@ def run(ctx, report):
     lazy_ok = guarded and all((isinstance(n.args[0], ast.Constant) and n.args[0].value in loaded) for f, n in sites
                                if id(f) in runtime_all and f.qualname not in IMPORT_ONLY and n.args)
 
-    def skip(f, g):
-        return lazy_ok and f.qualname == "schwifty.registry.get" and g.qualname in ("schwifty.registry.save", "schwifty.registry.parse_v2", "schwifty.registry.merge_dicts")
+    skip = slow_path_skip(ctx, eff, lazy_ok)
 
     runtime = eff.reachable(roots, skip_edge=skip)
     report.analysed = {"functions": len(eff.funcs), "runtime_reachable": len(runtime)}
